@@ -742,17 +742,31 @@ func (r *realm) registerMetaProcedure(procedure wamp.URI, f func(*wamp.Invocatio
 
 func (r *realm) metaProcedureHandler() {
 	defer close(r.metaDone)
+	// send gives a response to the meta session, unless the meta session has
+	// been stopped by realm shutdown. Once stopped, its handler no longer
+	// reads, and blocking on the send would hang the shutdown forever.
+	metaStopped := r.metaSess.RecvDone()
+	send := func(rsp wamp.Message) bool {
+		select {
+		case r.metaPeer.Send() <- rsp:
+			return true
+		case <-metaStopped:
+			return false
+		}
+	}
 	var rsp wamp.Message
 	for msg := range r.metaPeer.Recv() {
 		switch msg := msg.(type) {
 		case *wamp.Invocation:
 			metaProcHandler, ok := r.metaProcMap[msg.Registration]
 			if !ok {
-				r.metaPeer.Send() <- &wamp.Error{
+				if !send(&wamp.Error{
 					Type:    msg.MessageType(),
 					Request: msg.Request,
 					Details: wamp.Dict{},
 					Error:   wamp.ErrNoSuchProcedure,
+				}) {
+					return
 				}
 				continue
 			}
@@ -765,7 +779,9 @@ func (r *realm) metaProcedureHandler() {
 		default:
 			r.log.Println("Meta procedure received unexpected", msg.MessageType())
 		}
-		r.metaPeer.Send() <- rsp
+		if !send(rsp) {
+			return
+		}
 	}
 }
 
